@@ -850,3 +850,69 @@ mut('C17', 'notstarted-for-any-error', BITBUCKET,
 mut('C17', 'grouping-by-workflow', GITHUB,
     "            lambda elem: elem['head_branch']\n        )]",
     "            lambda elem: elem['workflow_id']\n        )]")
+
+# ------------------------------------------------------------------- C16
+mut('C16', 'fix-reverted-print-headers', GITHUB,
+    "            'Accept': self.accept_header,\n        }\n        response = self.session.post(url, headers=headers)",
+    "            'Accept': self.accept_header,\n        }\n        print(headers)\n        response = self.session.post(url, headers=headers)")
+mut('C16', 'fix-reverted-from-err-timeout', SIMPLECMD,
+    "                \"Command %s timed out.\" % mask_pwd(command)) from None",
+    "                \"Command %s timed out.\" % mask_pwd(command)) from err")
+mut('C16', 'fix-reverted-from-err-generic', SIMPLECMD,
+    "            raise CommandError(mask_pwd(str(err))) from None",
+    "            raise CommandError(mask_pwd(str(err))) from err")
+mut('C16', 'implicit-context', SIMPLECMD,
+    "            raise CommandError(mask_pwd(str(err))) from None",
+    "            raise CommandError(mask_pwd(str(err)))")
+mut('C16', 'unmasked-debug-command', SIMPLECMD,
+    "        LOG.debug('[%s] %s', kwargs.get('cwd', os.getcwd()), mask_pwd(command))",
+    "        LOG.debug('[%s] %s', kwargs.get('cwd', os.getcwd()), command)")
+mut('C16', 'unmasked-error-message', SIMPLECMD,
+    "                    (mask_pwd(command), proc.returncode, output)",
+    "                    (command, proc.returncode, output)")
+mut('C16', 'unmasked-output', SIMPLECMD,
+    "            output = mask_pwd(output)\n", "")
+mut('C16', 'unmasked-generic-error', SIMPLECMD,
+    "            raise CommandError(mask_pwd(str(err))) from None",
+    "            raise CommandError(str(err)) from None")
+mut('C16', 'log-url-in-clone', GIT,
+    "        repo_slug = self._url.split('/')[-1].replace('.git', '')\n",
+    "        repo_slug = self._url.split('/')[-1].replace('.git', '')\n        LOG.debug('cloning %s', self._url)\n")
+mut('C16', 'url-in-exception', GIT,
+    "            raise PushFailedException(name) from err",
+    "            raise PushFailedException('%s -> %s' % (name, self._url)) from err")
+mut('C16', 'log-headers', GITHUB,
+    "        url = self._patch_url(url)\n        response = self.session.put(url, **kwargs)",
+    "        url = self._patch_url(url)\n        LOG.debug('PUT %s %s', url, self.headers)\n        response = self.session.put(url, **kwargs)")
+mut('C16', 'log-token', GITHUB,
+    "        response.raise_for_status()\n        return response.json()['token']",
+    "        response.raise_for_status()\n        LOG.info('new installation token %s', response.json()['token'])\n        return response.json()['token']")
+mut('C16', 'mask-not-passed', GIT,
+    "        kwargs.setdefault('mask_pwd', self._mask_pwd)\n", "")
+mut('C16', 'quote-mismatch', BERTE,
+    "            mask_pwd=quote_plus(settings.robot_password)",
+    "            mask_pwd=settings.robot_password")
+mut('C16', 'as-dict-all-settings', JOB,
+    "            'settings': self.settings.maps[0]",
+    "            'settings': dict(self.settings._wrapped)")
+mut('C16', 'jira-token-in-error', 'bert_e/workflow/gitwaterflow/jira.py',
+    "        raise\n\n\ndef check_issue_reference",
+    "        LOG.error('jira lookup failed with token %s', job.settings.jira_token)\n        raise\n\n\ndef check_issue_reference")
+mut('C16', 'password-in-job-details', BERTE,
+    "                job.details = str(err)\n            elif",
+    "                job.details = '%s (%s)' % (err, self.git_repo._url)\n            elif")
+mut('C16', 'comment-with-url', INTEG,
+    "    if len(wbranches) > 1:\n        notify_user(",
+    "    if len(wbranches) > 1:\n        job.pull_request.add_comment('pushed to %s' % job.git.repo._url)\n        notify_user(")
+mut('C16', 'mask-is-noop', SIMPLECMD,
+    "    def mask_pwd(data):\n        return data.replace(pwd, '***') if pwd else data\n\n    kwargs.update",
+    "    def mask_pwd(data):\n        return data\n\n    kwargs.update")
+mut('C16', 'basic-auth-logged', AUTH,
+    "        auth = request.authorization\n",
+    "        auth = request.authorization\n        LOG_ = __import__('logging').getLogger(__name__)\n        LOG_.info('webhook auth %s:%s', auth.username, auth.password)\n")
+eq(['C16'], 'log-slug-only', GIT,
+   "        top = os.path.expanduser('~/.bert-e/')",
+   "        LOG.debug('slug %s', repo_slug)\n        top = os.path.expanduser('~/.bert-e/')")
+eq(['C16'], 'log-masked-url', GIT,
+   "        top = os.path.expanduser('~/.bert-e/')",
+   "        LOG.debug('url %s', self._url.replace(self._mask_pwd, '***'))\n        top = os.path.expanduser('~/.bert-e/')")
